@@ -15,3 +15,11 @@ func (w *World) VerifNumIndices() int {
 func (w *World) VerifFindFeaturesInIndex(i int, q b6.Query) b6.Features {
 	return b6.NewSearchFeatureIterator(q.Compile(w.indices[i], w), w.indices[i])
 }
+
+// VerifSetCacheCapacity changes the number of features the world's lookup cache holds (0: no limit), so
+// that a test can make it evict with a handful of lookups.
+func (w *World) VerifSetCacheCapacity(n int) {
+	w.byID.lock.Lock()
+	defer w.byID.lock.Unlock()
+	w.byID.cache.MaxEntries = n
+}
